@@ -90,12 +90,14 @@ func (h *httpHandler) ServeHTTP(w http.ResponseWriter, r *http.Request) {
 		return
 	}
 
-	var wg sync.WaitGroup
 	e := h.executor
 
-	wg.Add(1)
+	// finished is closed when the first computation has run. The rerunner never
+	// runs it if the request's context is already canceled.
+	finished := make(chan struct{})
+	var finishOnce sync.Once
 	runner := reactive.NewRerunner(r.Context(), func(ctx context.Context) (interface{}, error) {
-		defer wg.Done()
+		defer finishOnce.Do(func() { close(finished) })
 
 		ctx = batch.WithBatching(ctx)
 
@@ -128,6 +130,10 @@ func (h *httpHandler) ServeHTTP(w http.ResponseWriter, r *http.Request) {
 		return nil, nil
 	}, DefaultMinRerunInterval, false)
 
-	wg.Wait()
+	select {
+	case <-finished:
+	case <-r.Context().Done():
+	}
+	// Stop waits for a computation that is still running.
 	runner.Stop()
 }
